@@ -248,9 +248,9 @@ fn clock_valued_constants(acc: &mut Acc) {
 
 /// Every count 0..=1100 and a few dozen mid-range values (not boundaries of anything) under every
 /// numeric keyword and unit.
-fn dense_inputs() -> Vec<String> {
+fn dense_inputs(upto: u64) -> Vec<String> {
     use speclib::textspec::{ArgKind, VOCAB};
-    let mut vals: Vec<u64> = (0..=1100).collect();
+    let mut vals: Vec<u64> = (0..=upto).collect();
     vals.extend([1439, 1440, 1441, 3599, 3600, 3601, 9999, 10000, 43200, 65535, 65536, 65537, 86399, 86400, 86401, 99999, 100000, 604800, 1048575, 1048576, 1048577, 16777215, 16777216, 16777217, 123456789, 999999999]);
     let mut out = vec![];
     for kw in VOCAB {
@@ -274,7 +274,7 @@ fn dense_inputs() -> Vec<String> {
 
 pub fn run(ctx: &Ctx) -> i32 {
     let mut inputs = numeric_inputs();
-    inputs.extend(dense_inputs());
+    inputs.extend(dense_inputs(ctx.tier.pick(1100, 20000)));
     // the thread count next to other options and inside an expression
     let threads: Vec<String> = inputs.iter().filter(|s| s.starts_with("-threads ")).cloned().collect();
     for t in &threads {
@@ -304,7 +304,7 @@ pub fn run(ctx: &Ctx) -> i32 {
             level: "model_checking",
             exhaustive: true,
             rule: "state = (numeric keyword, sign, leading zeros, value of the boundary lattice, unit letter); the real parser's verdict and tree are compared with arbitrary-precision arithmetic on the written digits; accepted inputs are compiled, the integer literals of the emitted comparison read back (they must contain the exact value, resp. value x unit and the unit), the scan call's thread argument read back, and the comparison executed on records around the constant; distinct = distinct literal sets and error texts".into(),
-            bound: format!("every numeric keyword x {{'', +, -}} x {{no, 1, 3}} leading zeros x every unit letter x a lattice of 50+ values around 2^31, 2^32, 2^63, 2^64, 10^19, 10^20, 10^39 and 2^64/unit for every unit, the whole seconds / minutes / hours / days since the epoch and their neighbours, every count 0..1100 and 26 mid-range values under every keyword and unit ({} inputs); {} expressions with two numeric tests on one attribute (bounds in both orders, equal values, equal products in different units) under and / or / list / negation; release build here, the debug build's results are tied to these by C17's pairwise comparison over the same lattice", inputs.len(), multi.len()),
+            bound: format!("every numeric keyword x {{'', +, -}} x {{no, 1, 3}} leading zeros x every unit letter x a lattice of 50+ values around 2^31, 2^32, 2^63, 2^64, 10^19, 10^20, 10^39 and 2^64/unit for every unit, the whole seconds / minutes / hours / days since the epoch and their neighbours, every count 0..1100 (thorough: 0..20000) and 26 mid-range values under every keyword and unit ({} inputs); {} expressions with two numeric tests on one attribute (bounds in both orders, equal values, equal products in different units) under and / or / list / negation; release build here, the debug build's results are tied to these by C17's pairwise comparison over the same lattice", inputs.len(), multi.len()),
             assumptions: vec!["field ranges: 32 bits for ids, inode, mirror/stripe counts and the thread count; 64 bits for link counts, sizes (after multiplication by the unit) and ages".into()],
             extra,
         },
